@@ -258,10 +258,11 @@ func (c *ExecCtx) conversion(st *State, v Val, to types.Type, pos token.Pos) Val
 				}
 			case types.Uint, types.Uint64, types.Uintptr:
 				if fb != nil && fb.Info()&types.IsUnsigned == 0 {
-					w := u.fresh("tounsigned", SInt)
-					st.assumeT(Imp(Ge(t, IntLit(0)), Eq(w, t)))
-					st.assumeT(Ge(w, IntLit(0)))
-					t = w
+					// deterministic: to_u64(x) = x for x >= 0, x + 2^64 otherwise
+					d.Fun("to_u64", []string{SInt}, SInt)
+					x := Sym("x!u", SInt)
+					d.AddAxiom("to_u64_def", Forall([]*Term{x}, Eq(App("to_u64", SInt, x), Ite(Ge(x, IntLit(0)), x, Add(x, BigLit("18446744073709551616")))), []*Term{App("to_u64", SInt, x)}))
+					t = App("to_u64", SInt, t)
 				}
 			}
 			return Val{t, to}
@@ -288,7 +289,9 @@ func (c *ExecCtx) bytesToStr(st *State, b *Term) *Term {
 	fn := "b2s_" + sanitize(es)
 	d.Fun(fn, []string{ArraySort(SInt, es), SInt}, SStr)
 	r := App(fn, SStr, slArr(b), slLen(b))
-	st.assumeT(Eq(c.strLen(r), slLen(b)))
+	c.strLen(r)
+	a, n := Sym("a!b", ArraySort(SInt, es)), Sym("n!b", SInt)
+	d.AddAxiom("slen_"+fn, Forall([]*Term{a, n}, Imp(Ge(n, IntLit(0)), Eq(App("slen", SInt, App(fn, SStr, a, n)), n)), []*Term{App(fn, SStr, a, n)}))
 	return r
 }
 
@@ -751,6 +754,7 @@ func (c *ExecCtx) havocHeaps(st *State, fn *types.Func, recv *Val, args []Val) {
 	}
 	// which heaps can the callee reach from its receiver and arguments?
 	reach := newReach(u.eng.tm)
+	reach.eng = u.eng
 	if fn != nil || recv != nil || len(args) > 0 {
 		if recv != nil {
 			reach.add(recv.Ty)
@@ -773,8 +777,17 @@ func (c *ExecCtx) havocHeaps(st *State, fn *types.Func, recv *Val, args []Val) {
 			st.heaps[h] = cur
 		}
 	}
+	var calleePkg *types.Package
+	if fn != nil {
+		calleePkg = fn.Pkg()
+	}
 	for h, cur := range st.heaps {
 		if !reach.everything && !reach.heap(h) {
+			continue
+		}
+		// import-graph frame: code of package P cannot write fields of
+		// struct types that P (transitively) cannot name
+		if calleePkg != nil && !u.eng.canName(calleePkg, h) {
 			continue
 		}
 		if h == "$alloc" {
@@ -1156,10 +1169,31 @@ func (c *ExecCtx) applyContract(st *State, fs *FuncSpec, fn *types.Func, recv *V
 	if results == nil && sig != nil {
 		results = c.freshResults(st, sig, fn, false)
 	}
+	// the callee may have allocated: allocation set grows, results are allocated
+	if fn != nil && inModule(fn.Pkg()) && !fs.Pure {
+		al := u.heapGet(st, "$alloc", ArraySort(SInt, SBool))
+		na := u.fresh("alloc", al.Sort)
+		x := Sym("x!a", SInt)
+		st.assumeT(Forall([]*Term{x}, Imp(Select(al, x), Select(na, x)), []*Term{Select(na, x)}))
+		u.heapSet(st, "$alloc", na)
+		for _, r := range results {
+			if r.T.Sort == SInt {
+				switch unalias(r.Ty).Underlying().(type) {
+				case *types.Pointer, *types.Map, *types.Chan:
+					st.assumeT(Or(Eq(r.T, IntLit(0)), Select(na, r.T)))
+				}
+			}
+		}
+	}
 	// bind results
 	env.bindResults(results)
 	for _, cl := range fs.Ensures {
+		if strings.HasPrefix(cl.Label, "internal") {
+			continue // refers to ghost state of the callee's own verification
+		}
+		env.assuming = true
 		t := env.evalBool(st, pre, cl.Expr, cl.Where)
+		env.assuming = false
 		st.assumeT(t)
 	}
 	return results
@@ -1343,6 +1377,7 @@ func (c *ExecCtx) applyRole(st *State, fs *FuncSpec, sig *types.Signature, args 
 	}
 	results := c.freshResults(st, sig, nil, false)
 	env.bindResults(results)
+	env.assuming = true
 	for _, cl := range fs.Ensures {
 		st.assumeT(env.evalBool(st, pre, cl.Expr, cl.Where))
 	}
@@ -1400,6 +1435,7 @@ func typeHasFunc(t types.Type, seen map[types.Type]bool) bool {
 // types (transitively through fields, elements and pointers). Func values
 // and repository-defined interfaces reach everything.
 type reachSet struct {
+	eng        *Engine
 	tm         *TypeMap
 	everything bool
 	heaps      map[string]bool // exact heap names
@@ -1502,7 +1538,16 @@ func (r *reachSet) add(t types.Type) {
 		r.everything = true
 	case *types.Interface:
 		if n, ok := t.(*types.Named); ok && n.Obj() != nil && n.Obj().Pkg() != nil && inModule(n.Obj().Pkg()) {
-			r.everything = true
+			// repository-defined interface: the dynamic type is one of the
+			// repository types implementing it, or user code that holds no
+			// reference to repository internals (listed assumption)
+			if r.eng == nil || u.NumMethods() == 0 {
+				r.everything = true
+				break
+			}
+			for _, impl := range r.eng.implementers(u) {
+				r.add(impl)
+			}
 		}
 		if _, ok := t.(*types.Named); !ok && u.NumMethods() > 0 {
 			r.everything = true
@@ -1510,4 +1555,89 @@ func (r *reachSet) add(t types.Type) {
 	case *types.TypeParam:
 		r.everything = true
 	}
+}
+
+
+// implementers lists the repository named types (as pointer types) whose
+// method set implements iface.
+func (e *Engine) implementers(iface *types.Interface) []types.Type {
+	key := iface.String()
+	if v, ok := e.implCache[key]; ok {
+		return v
+	}
+	var out []types.Type
+	for _, p := range e.pkgs {
+		sc := p.Types.Scope()
+		for _, n := range sc.Names() {
+			tn, ok := sc.Lookup(n).(*types.TypeName)
+			if !ok || tn.IsAlias() {
+				continue
+			}
+			named, ok := tn.Type().(*types.Named)
+			if !ok || named.TypeParams().Len() > 0 {
+				continue
+			}
+			if _, isIface := named.Underlying().(*types.Interface); isIface {
+				continue
+			}
+			pt := types.NewPointer(named)
+			if types.Implements(pt, iface) || types.Implements(named, iface) {
+				out = append(out, pt)
+			}
+		}
+	}
+	if e.implCache == nil {
+		e.implCache = map[string][]types.Type{}
+	}
+	e.implCache[key] = out
+	return out
+}
+
+
+// canName: can code in package p name the struct type (or global) that heap h
+// belongs to? Stored callbacks are not considered (listed assumption).
+func (e *Engine) canName(p *types.Package, h string) bool {
+	var owner *types.Package
+	switch {
+	case strings.HasPrefix(h, "H.") || strings.HasPrefix(h, "HG."):
+		i := strings.LastIndex(h, ".")
+		owner = e.tm.heapPkg[h[:i+1]]
+	case strings.HasPrefix(h, "G."):
+		// G.<sanitized path>.<name>: compare against closure by sanitized path
+		for q := range e.importClosure(p) {
+			if strings.HasPrefix(h, "G."+sanitize(q.Path())+".") {
+				return true
+			}
+		}
+		return false
+	default:
+		return true
+	}
+	if owner == nil {
+		return true
+	}
+	return e.importClosure(p)[owner]
+}
+
+func (e *Engine) importClosure(p *types.Package) map[*types.Package]bool {
+	if e.impClosure == nil {
+		e.impClosure = map[*types.Package]map[*types.Package]bool{}
+	}
+	if c, ok := e.impClosure[p]; ok {
+		return c
+	}
+	c := map[*types.Package]bool{}
+	var walk func(q *types.Package)
+	walk = func(q *types.Package) {
+		if c[q] {
+			return
+		}
+		c[q] = true
+		for _, i := range q.Imports() {
+			walk(i)
+		}
+	}
+	walk(p)
+	e.impClosure[p] = c
+	return c
 }
